@@ -210,10 +210,15 @@ def inline_variants(rules):
                 yield name, i, new
 
 
-def vector(enf, rules, default, names):
+def vector(enf, rules, default, names, as_object=False):
     # the default rule is the ENFORCER's; the rule set arrives as a ready-made
     # Rules object that names none
     enf.default_rule = default
+    if as_object and default is not None:
+        # the same default, given as a check OBJECT (the parsed text of the
+        # rule that the name variant points to)
+        from oslo_policy import _parser
+        enf.default_rule = _parser.parse_rule(rules[default])
     world.set_rules(enf, rules)
     vec = []
     for n in names:
@@ -243,7 +248,8 @@ def run(job, seed):
                     continue
                 nontriv = any(refs_of(v) for v in rules.values())
                 acc.case('S1', nontriv)
-                got = vector(enf, rules, default, queries)
+                got = vector(enf, rules, default, queries,
+                             as_object=idx % 2 == 1)
                 acc.ev(len(got))
                 exp = [('ok', ref_decide(rules, default, n, set(r)))
                        for n in queries for r in ROLESETS]
